@@ -1287,6 +1287,11 @@ func (a *Agent) replaceRedundantPeerReflexiveCandidates(set []Candidate, cand Ca
 // addRemoteCandidate assumes you are holding the lock (must be execute using a.run).
 // Returns true when the candidate is accepted (including duplicates).
 func (a *Agent) addRemoteCandidate(cand Candidate) bool { //nolint:cyclop
+	if a.connectionState == ConnectionStateFailed {
+		// Failed released every candidate and pair; only Restart starts a new session.
+		return false
+	}
+
 	if !a.shouldAcceptRemoteCandidate(cand) {
 		return false
 	}
@@ -1361,6 +1366,19 @@ func (a *Agent) addCandidate(ctx context.Context, cand Candidate, candidateConn 
 	}
 
 	return a.loop.Run(ctx, func(context.Context) {
+		if a.connectionState == ConnectionStateFailed {
+			// Failed released every candidate and pair; only Restart starts a new session.
+			a.log.Debugf("Ignore candidate gathered after failure: %s", cand)
+			if err := cand.close(); err != nil {
+				a.log.Warnf("Failed to close candidate: %v", err)
+			}
+			if err := candidateConn.Close(); err != nil {
+				a.log.Warnf("Failed to close candidate connection: %v", err)
+			}
+
+			return
+		}
+
 		set := a.localCandidates[cand.NetworkType()]
 		for _, candidate := range set {
 			if candidate.Equal(cand) {
